@@ -8,14 +8,16 @@
   evaluated from scratch on the last `n` values of `replicate n v ++ xs.take (i+1)`.
 
   Proved here: SMA, WMA, windowed and cumulative Integral, Momentum, Derivative,
-  RateOfChange, Past.  The remaining C02 methods (SWMA, TRIMA, HMA, LinReg, Conv, VWMA, StDev,
-  MeanAbsDev, MedianAbsDev, CCI, LinearVolatility, windowed ADI) are at present covered by the
+  RateOfChange, Past, StDev (the variance under its square root), LinearVolatility.  The remaining C02 methods (SWMA, TRIMA,
+  HMA, LinReg, Conv, VWMA, MeanAbsDev, MedianAbsDev, CCI, windowed ADI) are at present covered by the
   correspondence run only (Rust vs exact model *and* vs from-scratch spec on every step); see
   the evidence file and DESIGN §5.
 -/
 import YataProofs.Numeric.SMA
 import YataProofs.Numeric.WMA
 import YataProofs.Numeric.Simple
+import YataProofs.Numeric.StDev
+import YataProofs.Numeric.LinVol
 import Mathlib.Tactic.NormNum
 namespace Yata.C02
 open Yata
@@ -63,6 +65,20 @@ theorem C02_past {P n : Nat} (v : K) (hn0 : 0 < n) (hn : n ≤ P - 1) (xs : List
     Conforms (Past.new P n v) Past.next (Spec.past n v) xs :=
   Past.spec v hn0 hn xs
 
+/-- StDev: the quantity under the final square root is the sample variance (divisor n−1) of the last `n` values;
+    the code returns its `sqrt` (not modelled: the run compares the squared output) -/
+theorem C02_stdev {P n : Nat} (v : K) (hn2 : 2 ≤ n) (hn : n ≤ P - 1) (xs : List K) :
+    ∃ s0 outs s', StDev.new P n v = .ok s0 ∧ runM StDev.next s0 xs = .ok (outs, s') ∧
+      outs.length = xs.length ∧ ∀ i (hi : i < outs.length), outs[i] = Spec.variance n v (xs.take (i + 1)) :=
+  StDev.spec v hn2 hn xs
+
+/-- LinearVolatility: the sum of the absolute successive differences of the last `n` steps, never negative -/
+theorem C02_linear_volatility {P n : Nat} (v : K) (hn0 : 0 < n) (hn : n ≤ P - 1) (xs : List K) :
+    ∃ s0 outs s', LinearVolatility.new P n v = .ok s0 ∧ runM LinearVolatility.next s0 xs = .ok (outs, s') ∧
+      outs.length = xs.length ∧
+      ∀ i (hi : i < outs.length), outs[i] = Spec.linearVolatility n v (xs.take (i + 1)) ∧ 0 ≤ outs[i] :=
+  LinearVolatility.spec v hn0 hn xs
+
 /-- length 0 is rejected by every constructor that documents it (Integral accepts it: cumulative) -/
 theorem C02_zero_length_rejected {P : Nat} (v : K) :
     (∃ e, SMA.new P 0 v = .err e) ∧ (∃ e, WMA.new P 0 v = .err e) ∧ (∃ e, Momentum.new P 0 v = .err e) ∧
@@ -88,3 +104,5 @@ end Yata.C02
 #print axioms Yata.C02.C02_rate_of_change
 #print axioms Yata.C02.C02_past
 #print axioms Yata.C02.C02_zero_length_rejected
+#print axioms Yata.C02.C02_stdev
+#print axioms Yata.C02.C02_linear_volatility
